@@ -200,11 +200,37 @@ def r2_3_layouts(ctx, prog, rule="R2.3"):
         ctx.ob(rule, "icmp:encode", okk, "ICMP encodes (type << 9) | code", info["where"])
         paths, info = C.explore_fn(prog, "<%s as stun_rs::attributes::DecodeAttributeValue>::decode" % ic, "x", [r"\{closure", r"AttributeDecoderContext"])
         okd = False
+        src_ok = None
+        BASE = "top:ctx.raw_value.*"
+
+        def word_of(v):
+            """the byte range of the value a 16-bit (or wider) word was read from: a big-endian read in any spelling, or
+            the workspace integer decoder (big-endian by R2.4) applied to a view of the value"""
+            bv = bytesem.be_value(v, BASE)
+            if bv is not None:
+                return bv
+            if isinstance(v, tuple) and len(v) == 2 and v[1] == ".ok.0" and isinstance(v[0], tuple) and v[0][0] == "common::decode" and len(v[0]) == 2:
+                return bytesem.slice_view(v[0][1], BASE)
+            return None
         for pa in paths:
             s = repr([C.expr_of(pa, e[2]) for e in pa.calls])
             if "('op:Shr'" in s and ", 9)" in s and "511" in s:
                 okd = True
+            # which bytes of the value the type / code are computed from: exactly bytes 2..4 - the 16 reserved bits in
+            # front of them must not reach the decoded value (a wider read lets them leak into the type)
+            for e in pa.calls:
+                if re.search(r"BoundedU(8|16)::<.*>::new$", e[1]):
+                    a = _unconv(C.expr_of(pa, e[2][0]))
+                    w = None
+                    if isinstance(a, tuple) and len(a) == 3 and a[0] == "op:Shr" and a[2] == 9:
+                        w = word_of(_unconv(a[1]))
+                    elif isinstance(a, tuple) and len(a) == 3 and a[0] == "op:BitAnd":
+                        w = word_of(_unconv(a[2] if isinstance(a[1], int) else a[1]))
+                    good = w is not None and w[0] == 2 and (w[1] == 4 or w[1] is None and False)
+                    src_ok = good if src_ok is None else (src_ok and good)
         ctx.ob(rule, "icmp:decode", okd, "ICMP decodes with >> 9 and & 0x1ff", info["where"])
+        ctx.ob(rule, "icmp:decode-source", bool(src_ok), "type and code are computed from the 16-bit word at bytes 2..4 of the value only "
+               "(the reserved bits before it are ignored)", info["where"])
     ep = "stun_rs::attributes::turn::even_port::EvenPort"
     if prog.body("<%s as stun_rs::attributes::EncodeAttributeValue>::encode" % ep, required=False) is not None:
         b = prog.body("<%s as stun_rs::attributes::EncodeAttributeValue>::encode" % ep)
